@@ -13,6 +13,10 @@ R12.4 duplicate-assignment check is order-free and on every normal path of creat
 R12.5 per-statement analyser state (alias set, dependency accumulator) is re-initialised between statements on every path
 R12.6 semantic validation does not mutate its operands (interprocedural effect analysis on every Operators *validat*
       method): a mutated operand is a dataset stored for later statements, so results would depend on statement order
+R12.7 the SQL transpiler carries no state from one statement into the next: scratch containers filled by expression handlers are
+      re-initialised on every path of the per-statement loop, handlers rebind attributes only inside restoring context managers,
+      parameter-scope stacks are balanced (independent statements keep their textual order after the sort, so leaked state makes the
+      result depend on where a statement is written)
 Not decided: that equal dependency graphs give equal run() results (runtime).
 """
 from __future__ import annotations
@@ -384,5 +388,9 @@ def run(rep: Report, tier: str) -> None:
             rep.note(f"R12.6 reference site no longer present: {r[0]}/{r[1]}")
     rep.analysed = {"ast_node_classes": len(N), "node_bearing_fields": nfields, "validation_methods": nmeth,
                     "per_statement_accumulators": sorted(mutated_in_visits)}
+    # ---- R12.7: the transpiler carries nothing from one statement into the next (shared rule RT.3 a/b/d) ----
+    rep.rule("R12.7", "SQL transpiler: per-statement scratch state re-initialised on every path; attribute rebinding only in restoring scopes; scope stacks balanced")
+    from sa import transp
+    transp.state_discipline(P, rep, "R12.7", parts="abd")
     rep.assumptions = ["visit dispatch is by exact class name (`visit_` + type(node).__name__)",
                        "operand-mutation sites present on the reference tree are taken as designed behaviour (listed exemptions)"]
